@@ -228,6 +228,94 @@ theorem second_load_uses_cache {α : Type} (c : Cfg) (hv : c.formatVersion < 256
     leDecode_leEncode _ _ hv, hd, ho, hpu parse⟩
   simp [dumpPickle, header, List.append_assoc]
 
+
+/-! ### the front of `fromFile`: which file is consulted for a given spelling of the path -/
+
+/-- the `handlers` dict of the source: map formats before the cache format -/
+def PathWF (pc : PathCfg) : Prop := pc.handlerOrder = [.map, .pickled]
+
+/-- **path_map_is_core**: with the map's own extension and the map file present, `fromFile` is the
+cache logic of `cache_used_iff_keys_equal` -/
+theorem path_map_is_core {α : Type} (c : Cfg) (pc : PathCfg) (hp : PathWF pc) (openErr : Err)
+    (unpickle : Bytes → Option α) (parse : α) (useCache : Bool) (digest : Bytes)
+    (cacheFile : Option Bytes) (optDigest : Bytes) :
+    fromFilePath c pc openErr unpickle parse useCache .map (some digest) cacheFile optDigest =
+      fromFile c unpickle parse useCache cacheFile digest optDigest := by
+  unfold fromFilePath resolveExt
+  rw [hp]
+  rfl
+
+/-- **path_noext_prefers_map**: a path without extension resolves to the map file whenever it
+exists — the cache is then only used through the digest checks, never directly -/
+theorem path_noext_prefers_map {α : Type} (c : Cfg) (pc : PathCfg) (hp : PathWF pc) (openErr : Err)
+    (unpickle : Bytes → Option α) (parse : α) (useCache : Bool) (digest : Bytes)
+    (cacheFile : Option Bytes) (optDigest : Bytes) :
+    fromFilePath c pc openErr unpickle parse useCache .none (some digest) cacheFile optDigest =
+      fromFilePath c pc openErr unpickle parse useCache .map (some digest) cacheFile optDigest := by
+  unfold fromFilePath resolveExt
+  rw [hp]
+  rfl
+
+/-- **path_noext_only_cache**: without a map file a path without extension is the `.snet` file -/
+theorem path_noext_only_cache {α : Type} (c : Cfg) (pc : PathCfg) (hp : PathWF pc) (openErr : Err)
+    (unpickle : Bytes → Option α) (parse : α) (useCache : Bool) (file : Bytes) (optDigest : Bytes) :
+    fromFilePath c pc openErr unpickle parse useCache .none none (some file) optDigest =
+      fromFilePath c pc openErr unpickle parse useCache .pickled none (some file) optDigest := by
+  unfold fromFilePath resolveExt
+  rw [hp]
+  rfl
+
+/-- **path_errors**: nothing readable → the not-found error; unknown extension → the unknown-format
+error; a named file that does not exist → the error of `open` -/
+theorem path_errors {α : Type} (c : Cfg) (pc : PathCfg) (hp : PathWF pc) (openErr : Err)
+    (unpickle : Bytes → Option α) (parse : α) (useCache : Bool) (mapFile cacheFile : Option Bytes)
+    (optDigest : Bytes) :
+    fromFilePath c pc openErr unpickle parse useCache .none none none optDigest = .raised pc.notFoundErr ∧
+    fromFilePath c pc openErr unpickle parse useCache .unknown mapFile cacheFile optDigest = .raised pc.unknownErr ∧
+    fromFilePath c pc openErr unpickle parse useCache .map none cacheFile optDigest = .raised openErr ∧
+    fromFilePath c pc openErr unpickle parse useCache .pickled mapFile none optDigest = .raised openErr := by
+  unfold fromFilePath resolveExt
+  rw [hp]
+  refine ⟨rfl, rfl, rfl, rfl⟩
+
+/-- **path_pickled_direct**: a `.snet` path is loaded directly: it is accepted exactly when its
+version field is current and its payload unpickles — the digests in its header are *not* compared
+with anything (there is no map to compare with), `useCache` is irrelevant, the parser never runs -/
+theorem path_pickled_direct {α : Type} (c : Cfg) (pc : PathCfg) (hp : PathWF pc) (openErr : Err)
+    (unpickle : Bytes → Option α) (parse a : α) (useCache : Bool) (mapFile : Option Bytes) (file : Bytes)
+    (optDigest : Bytes) :
+    (fromFilePath c pc openErr unpickle parse useCache .pickled mapFile (some file) optDigest = .cached a ↔
+      ∃ v d o payload, file = v ++ (d ++ (o ++ payload)) ∧ v.length = c.versionBytes ∧
+        leDecode v = c.formatVersion ∧ d.length = c.digestBytes ∧ o.length = c.optionsBytes ∧
+        unpickle payload = some a) ∧
+    (∀ x, fromFilePath c pc openErr unpickle parse useCache .pickled mapFile (some file) optDigest ≠ .parsed x) := by
+  have hres : fromFilePath c pc openErr unpickle parse useCache .pickled mapFile (some file) optDigest =
+      match fromPickle c unpickle file none none with
+      | .ok a => .cached a
+      | .err e => .raised e := by
+    unfold fromFilePath resolveExt
+    rw [hp]
+    rfl
+  rw [hres]
+  constructor
+  · constructor
+    · intro h
+      cases hp' : fromPickle c unpickle file none none with
+      | ok a' =>
+        rw [hp'] at h
+        simp only [Source.cached.injEq] at h
+        subst h
+        obtain ⟨v, d, o, payload, hf, hv, hver, hd, ho, _, _, hpay⟩ := (fromPickle_ok_iff c unpickle file none none a').mp hp'
+        exact ⟨v, d, o, payload, hf, hv, hver, hd, ho, hpay⟩
+      | err e => rw [hp'] at h; cases h
+    · rintro ⟨v, d, o, payload, hf, hv, hver, hd, ho, hpay⟩
+      have : fromPickle c unpickle file none none = .ok a :=
+        (fromPickle_ok_iff c unpickle file none none a).mpr
+          ⟨v, d, o, payload, hf, hv, hver, hd, ho, by simp [truthy], by simp [truthy], hpay⟩
+      rw [this]
+  · intro x
+    cases fromPickle c unpickle file none none <;> simp
+
 /-! ### the options digest: the byte string that is hashed determines the options -/
 
 def NoZero (b : Bytes) : Prop := ∀ x ∈ b, x ≠ 0
